@@ -280,20 +280,26 @@ func jobReaders(j *jobCtx) {
 			x := replay(u, p)
 			j.states++
 			ops := readOps(x)
-			// sequential answers
-			seq := make([]string, len(ops))
-			for i, o := range ops {
-				seq[i] = fmt.Sprint(o.f())
+			// The concurrent runs come FIRST and the sequential answers are taken afterwards (read-only operations:
+			// the answers are the same before and after): state that is built lazily on first use - inside the
+			// container or in package-level tables - is then first touched by two goroutines at once.
+			type pairRes struct {
+				a, b       int
+				res        [][]string
+				pan        bool
+				pmsg       string
+				out, races int
+				pure       bool
 			}
+			var done []pairRes
 			for a := 0; a < len(ops); a++ {
 				for b := a; b < len(ops); b++ {
-					e := Ev{"fam": "rd", "kind": x.Kind(), "cfg": jsonCfg(x), "op": "Pair", "rs": 1, "timeout": false, "obsbad": false,
-						"a": ops[a].name, "b": ops[b].name, "sa": seq[a], "sb": seq[b], "readers": 2, "reps": reps}
+					e := Ev{"fam": "rd", "kind": x.Kind(), "op": "Pair", "a": ops[a].name, "b": ops[b].name}
 					fp0 := fullFP(x)
 					rr.newRaces()
 					res := make([][]string, 2)
 					var pan [2]bool
-					ci := invoke(e, func() {
+					ci := invoke(skeletonRd(x, ops[a].name, ops[b].name), func() {
 						var wg sync.WaitGroup
 						start := make(chan struct{})
 						for g, oi := range []int{a, b} {
@@ -314,25 +320,41 @@ func jobReaders(j *jobCtx) {
 						close(start)
 						wg.Wait()
 					})
-					same := func(rs []string, want string) bool {
-						for _, r := range rs {
-							if r != want {
-								return false
-							}
-						}
-						return len(rs) == reps
-					}
-					e["panic"], e["pmsg"], e["out"] = ci.Panic || pan[0] || pan[1], ci.PMsg, ci.Out
-					e["ra_ok"], e["rb_ok"] = same(res[0], seq[a]), same(res[1], seq[b])
-					e["ra"], e["rb"] = first(res[0]), first(res[1])
-					e["races"] = rr.newRaces()
-					e["pure"] = fp0 == fullFP(x)
-					emit(e)
-					distinct["rd|"+x.Kind()+"|"+ops[a].name+"|"+ops[b].name] = struct{}{}
+					_ = e
+					done = append(done, pairRes{a, b, res, ci.Panic || pan[0] || pan[1], ci.PMsg, ci.Out, rr.newRaces(), fp0 == fullFP(x)})
 				}
+			}
+			// sequential answers
+			seq := make([]string, len(ops))
+			for i, o := range ops {
+				seq[i] = fmt.Sprint(o.f())
+			}
+			same := func(rs []string, want string) bool {
+				for _, r := range rs {
+					if r != want {
+						return false
+					}
+				}
+				return len(rs) == reps
+			}
+			for _, d := range done {
+				e := skeletonRd(x, ops[d.a].name, ops[d.b].name)
+				e["sa"], e["sb"], e["readers"], e["reps"] = seq[d.a], seq[d.b], 2, reps
+				e["panic"], e["pmsg"], e["out"] = d.pan, d.pmsg, d.out
+				e["ra_ok"], e["rb_ok"] = same(d.res[0], seq[d.a]), same(d.res[1], seq[d.b])
+				e["ra"], e["rb"] = first(d.res[0]), first(d.res[1])
+				e["races"], e["pure"] = d.races, d.pure
+				emit(e)
+				distinct["rd|"+x.Kind()+"|"+ops[d.a].name+"|"+ops[d.b].name] = struct{}{}
 			}
 		}
 	}
+}
+
+func skeletonRd(x Inst, a, b string) Ev {
+	return Ev{"fam": "rd", "kind": x.Kind(), "cfg": jsonCfg(x), "op": "Pair", "rs": 1, "timeout": false, "obsbad": false,
+		"a": a, "b": b, "sa": "", "sb": "", "ra": "", "rb": "", "ra_ok": false, "rb_ok": false, "races": 0, "pure": false,
+		"panic": false, "pmsg": "", "out": 0, "readers": 2, "reps": 0}
 }
 
 func first(xs []string) string {
